@@ -173,6 +173,19 @@ func configsBase(tier string) []xplore.Config {
 			}
 		}
 	}
+	// (e, continued) the other query types: a Once / Poll query whose dump is
+	// interrupted by Close at every transport event
+	for _, qt := range []client.Type{client.Once, client.Poll} {
+		for _, sc := range [][]string{{"bbbbp"}, {"bf", "bbbp"}} {
+			events := 0
+			for _, x := range sc {
+				events += 1 + len(x)
+			}
+			for at := 0; at < events; at++ {
+				out = append(out, xplore.Config{Name: fmt.Sprintf("e: real client used directly, query type %v, Subscribe x%d over scripted impl conns=%v, Close from another goroutine started at transport event %d", qt, len(sc), sc, at), Bound: bound - 2, Data: cfgData{part: "e", attempts: sc, closeAt: at, qtype: qt}})
+			}
+		}
+	}
 	// (e, continued) several client types: Subscribe is given 1..5 client types
 	// whose constructor fails ahead of the one that works (a target that refuses
 	// the protocols tried first), or only failing ones
@@ -935,7 +948,11 @@ func runE(cfg xplore.Config, d cfgData, ch vrt.Chooser, trace bool) (xplore.Outc
 			}
 			return nil
 		}
-		q := client.Query{Addrs: []string{"addr"}, Target: "t", Type: client.Stream, Queries: []client.Path{{"*"}}, NotificationHandler: handler}
+		qt := client.Stream
+		if d.qtype != 0 {
+			qt = d.qtype
+		}
+		q := client.Query{Addrs: []string{"addr"}, Target: "t", Type: qt, Queries: []client.Path{{"*"}}, NotificationHandler: handler}
 		var types []string
 		for k := 0; k < d.badTypes; k++ {
 			n := fmt.Sprintf("bad%d", k)
